@@ -197,7 +197,11 @@ def apply_all_filters(self):
     for m in ('select_brightest', 'reset_ids', 'apply_all_filters'):
         for key, cn in CATS.items():
             g = repo.get_class(cn).lookup(m)
-            pathsum_spec(res, 'SIB' if m == 'apply_all_filters' else 'SPEC', g, DEFS[m],
+            inl = None
+            if m == 'apply_all_filters':
+                # compared with select_brightest/reset_ids expanded on both sides (they may have been inlined)
+                inl = {k: repo.get_class(cn).lookup(k).node for k in ('select_brightest', 'reset_ids')}
+            pathsum_spec(res, 'SIB' if m == 'apply_all_filters' else 'SPEC', g, DEFS[m], inline=inl, meaning=
                          {'select_brightest': 'brightest = the N largest fluxes (all sources when brightest is None)',
                           'reset_ids': 'ids 1..N',
                           'apply_all_filters': 'filters, then brightest, then reset_ids; None when nothing passes the filters'}[m])
